@@ -1826,7 +1826,14 @@ class Model:
             Self: The current instance with the added surrogate model.
 
         """
-        self._insert_id(name=name, ctx="surrogate")
+        # Insert ids first, a rejected surrogate must leave the model and the surrogate untouched
+        old_ids = self._ids.copy()
+        try:
+            for i in (name, *(surrogate.outputs if outputs is None else outputs)):
+                self._insert_id(name=i, ctx="surrogate")
+        except (KeyError, NameError):
+            self._ids = old_ids
+            raise
 
         # Update surrogate if necessary
         if args is not None:
@@ -1835,10 +1842,6 @@ class Model:
             surrogate.outputs = outputs
         if stoichiometries is not None:
             surrogate.stoichiometries = stoichiometries
-
-        # Insert ids
-        for output in surrogate.outputs:
-            self._insert_id(name=output, ctx="surrogate")
 
         self._surrogates[name] = surrogate
         return self
@@ -1877,6 +1880,17 @@ class Model:
         if surrogate is None:
             surrogate = self._surrogates[name]
 
+        # Update ids first, a rejected update must leave the model and the surrogate untouched
+        old_ids = self._ids.copy()
+        try:
+            for i in old_outputs:
+                self._remove_id(name=i)
+            for i in surrogate.outputs if outputs is None else outputs:
+                self._insert_id(name=i, ctx="surrogate")
+        except (KeyError, NameError):
+            self._ids = old_ids
+            raise
+
         # Update existing / passed surrogate (other args always take precendece)
         if args is not None:
             surrogate.args = args
@@ -1884,12 +1898,6 @@ class Model:
             surrogate.outputs = outputs
         if stoichiometries is not None:
             surrogate.stoichiometries = stoichiometries
-
-        # Update ids
-        for i in old_outputs:
-            self._remove_id(name=i)
-        for i in surrogate.outputs:
-            self._insert_id(name=i, ctx="surrogate")
 
         self._surrogates[name] = surrogate
         return self
